@@ -184,3 +184,66 @@ def run_c06(gen_dir, json_path):
           "clifford_names": names, "fingerprint": fp}
     json.dump(js, open(json_path, "w"), indent=1)
     return js
+
+
+# ---------------------------------------------------------------------------------- measurement rotations (C07)
+def measurement_rotations():
+    """pauli -> list of gate names appended by bitwise_commuting_pauli_measurement_circuit"""
+    path = os.path.join(REPO, "packages/core/quri_parts/core/measurement/bitwise_commuting_pauli.py")
+    tree = _parse(path)
+    fn = [n for n in tree.body if isinstance(n, ast.FunctionDef) and n.name == "bitwise_commuting_pauli_measurement_circuit"]
+    if len(fn) != 1:
+        raise TranslateError("bitwise_commuting_pauli_measurement_circuit not found")
+    loops = [n for n in fn[0].body if isinstance(n, ast.For)]
+    if len(loops) != 2:
+        raise TranslateError("expected two for-loops (pauli_map construction, circuit construction)")
+    # first loop: consistency check raising ValueError on a conflicting Pauli at one index
+    src1 = ast.unparse(loops[0])
+    if "raise ValueError" not in src1 or "pauli_map[index] != pauli" not in src1 or "pauli_map[index] = pauli" not in src1:
+        raise TranslateError("unexpected pauli_map construction loop")
+    loop = loops[1]
+    if ast.unparse(loop.iter) != "pauli_map.items()" or ast.unparse(loop.target) != "(index, pauli)":
+        raise TranslateError("unexpected circuit construction loop header")
+    rot = {"X": [], "Y": [], "Z": []}
+    if len(loop.body) != 1 or not isinstance(loop.body[0], ast.If):
+        raise TranslateError("circuit loop body must be one if/elif chain")
+    node = loop.body[0]
+    seen = set()
+    while node is not None:
+        t = node.test
+        if not (isinstance(t, ast.Compare) and isinstance(t.ops[0], ast.Eq) and ast.unparse(t.left) == "pauli"):
+            raise TranslateError("unexpected test in circuit loop")
+        p = _single_pauli(t.comparators[0])
+        if p in seen:
+            raise TranslateError("duplicate branch")
+        seen.add(p)
+        for st in node.body:
+            if not (isinstance(st, ast.Expr) and isinstance(st.value, ast.Call) and
+                    ast.unparse(st.value.func) == "circuit.append" and len(st.value.args) == 1):
+                raise TranslateError("branch must only append gates")
+            call = st.value.args[0]
+            if not (isinstance(call, ast.Call) and isinstance(call.func, ast.Name) and
+                    [ast.unparse(a) for a in call.args] == ["index"]):
+                raise TranslateError("appended gate must be Name(index)")
+            if call.func.id not in KINDS or KINDS[call.func.id][1] != 1 or KINDS[call.func.id][3] != 0:
+                raise TranslateError(f"unsupported rotation gate {call.func.id}")
+            rot[p].append(call.func.id)
+        if len(node.orelse) == 1 and isinstance(node.orelse[0], ast.If):
+            node = node.orelse[0]
+        elif not node.orelse:
+            node = None
+        else:
+            raise TranslateError("unexpected else branch")
+    return rot
+
+
+def run_c07(gen_dir, json_path):
+    rot = measurement_rotations()
+    rows = "\n".join(f"  | {PAULI[p]} => [{'; '.join(KINDS[g][0] for g in gs)}]" for p, gs in sorted(rot.items()))
+    src = ("(* GENERATED by translate/tables.py from /repo -- do not edit *)\n"
+           "From Coq Require Import List.\nFrom QP Require Import Gates.\nFrom QPM Require Import Pauli Measure.\n"
+           "Import ListNotations.\n\n"
+           "Definition meas_rot : rot_table := fun p =>\n  match p with\n" + rows + "\n  end.\n")
+    open(os.path.join(gen_dir, "measrot.v"), "w").write(src)
+    json.dump({"rotations": rot}, open(json_path, "w"), indent=1)
+    return rot
